@@ -7,4 +7,4 @@ Extraction "c19_model.ml" uvarint uv_dec pad unpad proto_shards depth merkle_new
   new_sched validate_origin peer_for_shard shard_index_for_publisher total_shards
   encode mk_units create construct mask_units count_true validate v_init same_shard delivered_ok
   term_eq_dec sigt_eq_dec t_sign t_sig_ok ideal_recover split
-  code_copy_nonce ascii_of_N N_of_ascii Z.of_N.
+  code_copy_nonce ascii_of_N N_of_ascii Z.of_N from_proto from_proto_before_fix wire_wf.
